@@ -3,3 +3,7 @@ from pyvc.vc import contract, bounded
 from contracts.mcmc_gibbs import gibbs_take_step
 
 contract("C03", "gibbs_take_step", native=False)(gibbs_take_step)
+
+
+from contracts.mcmc_pca import pca_take_step
+contract("C03", "pca_take_step", native=False)(pca_take_step)
